@@ -628,7 +628,8 @@ func initTopicGrp(t *Topic) error {
 	stopic, err := store.Topics.Get(t.name)
 	if err != nil {
 		return err
-	} else if stopic == nil {
+	} else if stopic == nil || stopic.State == types.StateDeleted {
+		// A soft-deleted topic stays in the database but it's gone for the clients.
 		return types.ErrTopicNotFound
 	}
 
